@@ -92,7 +92,16 @@ func zzC19_bls(op int) {
 		}
 	}
 	verifEffectsBegin()
-	verifParallel(2, f)
+	// natively: 8 goroutines repeat the operation on the shared objects (a store by C code is invisible to the
+	// race detector; it shows up as a wrong result of a concurrent call)
+	verifParallel(8, func() {
+		for rep := 0; rep < verifNativeRepeat(6000); rep++ {
+			f()
+			if rep&255 == 255 && verifFailed() {
+				return
+			}
+		}
+	})
 	n := verifEffectsEnd()
 	verifAssert(n == 0, "the operation stores to nothing that existed before the call (keys, hasher, PoP hasher, messages, signatures, lists, globals)")
 	// natively: the objects used by the operation equal never-used copies (the twins above were used to
@@ -155,4 +164,46 @@ func zzC19_ecdsa(algoIdx, op int) {
 	assertEqBytes(msg, msg0, "message unmodified")
 	assertEqBytes(sig, sig0, "signature unmodified")
 	verifReach("ecdsa op")
+}
+
+// zzC19_decoders: the C decoders that every verification function hands its caller-owned byte slices to
+// (E1_read_bytes for signatures, E2_read_bytes for keys, Fr_read_bytes for scalars) store to nothing the caller
+// owns -- executed from the real LLVM IR (the BLS operations above use the decoders' contract instead).
+// which: 0 signature (48 bytes) | 1 public key (96 bytes) | 2 private key (32 bytes)
+func zzC19_decoders(which int) {
+	n := [3]int{g1BytesLen, g2BytesLen, frBytesLen}[which]
+	in := nondetBytes(n)
+	in0 := append([]byte{}, in...)
+	verifEffectsBegin()
+	verifParallel(8, func() {
+		for rep := 0; rep < verifNativeRepeat(20000); rep++ {
+			switch which {
+			case 0:
+				var p pointE1
+				_ = readPointE1(&p, in)
+			case 1:
+				var p pointE2
+				_ = readPointE2(&p, in)
+			default:
+				var x scalar
+				_ = readScalarFrStar(&x, in)
+			}
+			if !c19Same(in, in0) {
+				verifAssert(false, "a decoder call observed its input changed by a concurrent decoder call")
+				return
+			}
+		}
+	})
+	w := verifEffectsEnd()
+	verifAssert(w == 0, "the C decoder stores to nothing that existed before the call (the caller's input bytes)")
+	assertEqBytes(in, in0, "input bytes unmodified")
+	verifReach("decoders")
+}
+
+func c19Same(a, b []byte) bool {
+	same := true
+	for i := range a {
+		same = bAnd(same, a[i] == b[i])
+	}
+	return same
 }
